@@ -407,6 +407,12 @@ def run(ctx: Ctx):
     pres, load_, mat, tus = all_states(E3.t, False)
     ncd = C03.cache_discipline(ctx, E3, mkstate(pres[0], load_[0], mat[0], tus[0]), prop="C13")
     ctx.floor("cache-discipline cases", ncd, 30)
+    ctx.rule("I-args: no function of pygaps.iast. writes in place to a value that may be its own argument (numpy.asarray does not copy; "
+             "a default starting guess may BE the requested composition)")
+    from ..sites import no_inplace_on_arguments
+    no_inplace_on_arguments(ctx, load(ctx.root), "C13", "I-args", ('pygaps.iast.',),
+                            "the composition / pressures the equations are solved for would be rewritten before (or for the next) solve - forward and "
+                            "reverse IAST stop inverting each other, default and user guesses disagree")
     ctx.rule("I-fresh: no caching decorator on any function of pygaps.iast., pygaps.modelling.")
     no_memoisation(ctx, load(ctx.root), "C13", "I-fresh", ('pygaps.iast.', 'pygaps.modelling.'),
                    "IAST would equate spreading pressures computed for other parameters")
